@@ -87,8 +87,8 @@ def main():
             subprocess.run(['git', '-C', '/repo', 'checkout', '--', '.'], check=True)
         if meta.get('confirmation', {}).get('confirmed') is False:
             meta['note'] = ('not a valid property-breaking change on the current tree: its demonstration passes with the '
-                            'change applied (for C10-b: the shared-descriptor-dict route it relied on was closed by fix '
-                            'c0dd9604)')
+                            'change applied, because a later fix: commit closed the route it relied on (C10-b: c0dd9604 '
+                            'rebinds descriptor dicts; C03-g: ebdd0772 casts dissimilarities to float on entry)')
         json.dump(meta, open(f'{d}/meta.json', 'w'), indent=1)
         det = meta['detection']
         print(sid, 'caught' if det.get('caught') else 'MISSED', det.get('caught_by_tier'),
